@@ -1513,6 +1513,9 @@ class Explorer:
                 if verdict == "refuted" and not any(l == label for (l, _a, _dd) in s.cex):
                     bad = ("obligation", label, "holds symbolically, fails concretely")
                     break
+        if bad is None:
+            for g in cs.goals:  # goals reachable only in native mode (e.g. seeded double runs)
+                self.stats.goals[g] = self.stats.goals.get(g, 0) + 1
         return bad, assignment, got
 
     # main loop ----------------------------------------------------------------
